@@ -346,7 +346,7 @@ def mixture_tie_case(rnd, D, k):
 def highdim_case(rnd, D, k):
     """Many dimensions and parameter values far from one: products of a hundred factors leave the range of binary64, sums of
     their logarithms do not.  misfit at the columns generate() itself produces must be the closed-form -log density."""
-    d = rnd.choice([60, 100, 150])
+    d = rnd.choice([60, 100, 150]) if k % 10 < 5 else rnd.choice([1, 2, 3])        # every kind in many and in few dimensions
     kind = ["logspace", "normal_vec", "laplace", "normal_full", "normal_scalar"][k % 5]
     out = []
     rng = numpy.random.default_rng(500 + k)
@@ -355,7 +355,7 @@ def highdim_case(rnd, D, k):
     if kind == "logspace":
         var = distgen.col([rnd.choice([0.01, 0.04, 0.25]) for _ in range(d)])
         inner = D.Normal(mu.copy(), var.copy())
-        base = rnd.choice([10.0, math.e, 2.0])
+        base = rnd.choice([10.0, math.e, 2.0, 3.0, 1.5, 7.0, 16.0])      # the usual three and others
         obj = D.TransformToLogSpace(inner, base=base)
         s = numpy.asarray(obj.generate(4, rng), dtype=float)
         ref = lambda m: float(inner.misfit(numpy.log(m) / math.log(base))) + float(numpy.sum(numpy.log(m) + math.log(math.log(base))))
